@@ -601,3 +601,118 @@ def gen_clamps():
     lines.append("Definition venom_cclamps_abi : list (cty * vtemplate) := [\n" + ";\n".join(f"  ({c}, {vtemplate_term(*n)})" for c, _, n in vabi) + "\n].\n")
     lines.append("Definition venom_usubs : list (nty * vtemplate) := [\n" + ";\n".join(f"  ({c}, {vtemplate_term(*n)})" for c, _, n in vus) + "\n].\n")
     return "\n".join(lines), dict(legacy=leg, venom_arith=varith, venom_abi=vabi, venom_usub=vus)
+
+
+# ---------------------------------------------------------------- bytestring -> word conversions (memory operand)
+def has_mload(n):
+    return n.value == "mload" or any(has_mload(a) for a in n.args)
+
+
+def mlir_term(n):
+    """IRnode with read-only `mload`s -> Coq `mlir` term (LIRMem.v): maximal load-free subterms are embedded by MP."""
+    if not has_mload(n):
+        return f"(MP {lir_term(n)})"
+    v, args = n.value, n.args
+    if v == "mload" and len(args) == 1:
+        return f"(MLoad {mlir_term(args[0])})"
+    if v == "with" and len(args) == 3 and isinstance(args[0].value, str) and not args[0].args:
+        return f'(MWith "{args[0].value}" {mlir_term(args[1])} {mlir_term(args[2])})'
+    if v == "seq" and args:
+        a = [mlir_term(x) for x in args]
+        t = a[-1]
+        for x in reversed(a[:-1]):
+            t = f"(MSeq {x} {t})"
+        return t
+    if v == "assert" and len(args) == 1:
+        return f"(MAssert {mlir_term(args[0])})"
+    if v in OP1 and len(args) == 1:
+        return f"(M1 {OP1[v]} {mlir_term(args[0])})"
+    if v in OP2 and len(args) == 2:
+        return f"(M2 {OP2[v]} {mlir_term(args[0])} {mlir_term(args[1])})"
+    raise ExportError(f"IR node outside the LIRMem subset: {v} / {len(args)} args")
+
+
+def mvtemplate_term(instrs, r):
+    out = []
+    for i in instrs:
+        if i.opcode == "mload" and len(i.operands) == 1 and len(i.get_outputs()) == 1:
+            out.append(f'(MVLoad "{i.get_outputs()[0].name}" {vop_term(i.operands[0])})')
+        else:
+            out.append(f"(MV {vinstr_term(i)})")
+    return "([" + "; ".join(out) + "], " + vop_term(r) + ")"
+
+
+def legacy_convert_bytes(in_t, out_t):
+    from vyper import ast as vy_ast
+    from vyper.builtins import _convert as CV
+    from vyper.codegen.ir_node import IRnode
+    from vyper.evm.address_space import MEMORY
+    x = IRnode.from_list("b", typ=in_t, location=MEMORY)
+    arg_ast = vy_ast.Name.__new__(vy_ast.Name)
+    fake_arg = types.SimpleNamespace(reduced=lambda: arg_ast)
+    fake_ty = types.SimpleNamespace(_metadata={"type": types.SimpleNamespace(typedef=out_t)})
+    expr = types.SimpleNamespace(args=[fake_arg, fake_ty])
+
+    class FakeExpr:
+        def __init__(self, node, ctx):
+            self.ir_node = x
+
+    with mock.patch.object(CV, "Expr", FakeExpr):
+        return CV.convert(expr, None)
+
+
+def venom_convert_bytes(in_t, out_t):
+    from vyper import ast as vy_ast
+    from vyper.codegen_venom import expr as VE
+    from vyper.codegen_venom.builtins import convert as VC
+
+    def g(b, x, y):
+        arg_node = vy_ast.Name.__new__(vy_ast.Name)
+        arg_node._metadata = {"type": in_t}
+        node = types.SimpleNamespace(
+            args=[arg_node, types.SimpleNamespace(_metadata={"type": types.SimpleNamespace(typedef=out_t)})])
+
+        class FakeExpr:
+            def __init__(self, n, c):
+                pass
+
+            def lower(self):
+                return "vv"
+
+        ctx = types.SimpleNamespace(builder=b, unwrap=lambda vv: x)
+        with mock.patch.object(VE, "Expr", FakeExpr), \
+                mock.patch.object(vy_ast.Name, "has_folded_value", property(lambda self: False)):
+            return VC.lower_convert(node, ctx)
+
+    ins, r, x, y = venom_record(g)
+    return ins, r
+
+
+def bytes_convert_templates(kind):
+    """-> [(is_string 0/1, N, cty_out term, key_out, template)] for Bytes[N] / String[N], N = 1..32, to every word type
+    the real convert accepts."""
+    from vyper.exceptions import VyperException
+    from vyper.semantics.types import BytesT, StringT
+    outs = conv_types()
+    res = []
+    with settings_ctx():
+        for is_str, mk in ((0, BytesT), (1, StringT)):
+            for n in range(1, 34):
+                for co, ko, to in outs:
+                    try:
+                        t = legacy_convert_bytes(mk(n), to) if kind == "legacy" else venom_convert_bytes(mk(n), to)
+                    except VyperException:
+                        continue
+                    res.append((is_str, n, co, ko, t))
+    return res
+
+
+def gen_bytes_convert():
+    l = bytes_convert_templates("legacy")
+    v = bytes_convert_templates("venom")
+    lines = [HEADER.replace("C03.ArithSpec.", "C03.ArithSpec C03.ConvSpec C03.LIRMem C03.VSLMem.")]
+    lines.append("Definition legacy_bconverts : list (Z * Z * cty * mlir) := [\n" +
+                 ";\n".join(f"  ({s}, {n}, {co}, {mlir_term(t)})" for s, n, co, _, t in l) + "\n].\n")
+    lines.append("Definition venom_bconverts : list (Z * Z * cty * mvtemplate) := [\n" +
+                 ";\n".join(f"  ({s}, {n}, {co}, {mvtemplate_term(*t)})" for s, n, co, _, t in v) + "\n].\n")
+    return "\n".join(lines), l, v
